@@ -86,6 +86,8 @@ func (v *fnVC) instr(b *ssa.BasicBlock, in ssa.Instruction, st *State) {
 		fn := "fld$" + owner + "." + f.Name()
 		e.decl(fn, fmt.Sprintf("(declare-fun %s (Int) Int)", fn))
 		t := mk(sapp(fn, base.S), sRef).withGo(i.Type())
+		// the address of a field of a non-nil object is non-nil
+		e.assume(tImp(R, mk(sapp("not", sapp("=", t.S, "0")), sBool)))
 		v.vals[i] = t
 		v.addrs[i] = &addrInfo{kind: "field", base: base, owner: owner, field: f.Name(), typ: f.Type()}
 	case *ssa.Field:
@@ -840,6 +842,7 @@ func (v *fnVC) sliceOp(i *ssa.Slice, st *State) {
 		e.assume(mk(sapp("=", sapp("slen", r.S), sapp("bvsub", hi.S, lo.S)), sBool))
 		// whole-string slice is the string itself
 		e.assume(mk(sapp("=>", sapp("and", sapp("=", lo.S, bvLit(0, 64)), sapp("=", hi.S, ln.S)), sapp("=", r.S, x.S)), sBool))
+		e.assume(mk(fmt.Sprintf("(forall ((i (_ BitVec 64))) (! (=> (and (bvsle #x0000000000000000 i) (bvslt i (slen %s))) (= (sat %s i) (sat %s (bvadd %s i)))) :pattern ((sat %s i))))", r.S, r.S, x.S, lo.S, r.S), sBool))
 	case *types.Slice:
 		cp := mk(sapp("sl_cap", x.S), sI64)
 		if hi == nil {
